@@ -10,6 +10,7 @@ import json, os, re, shutil, subprocess, sys, time
 os.environ["VERIF_EVIDENCE_DIR"] = "/tmp/seed-evidence"; os.environ["VERIF_REPLAY_DIR"] = "/tmp/seed-replay"
 
 args = [a for a in sys.argv[1:] if not a.startswith("--")]
+IN_REPO = "--in-repo" in sys.argv      # literal procedure: git -C /repo apply, run, git -C /repo checkout -- . (only when nothing else reads /repo)
 RERUN = "--rerun" in sys.argv          # only re-run the checks against an already confirmed seed in /verif/seeded
 pid, k = args[0], args[1]
 ids = args[2:] or [pid]
@@ -24,6 +25,25 @@ for ext in (".c", ".cpp", ".sh"):
         demo = os.path.join(SEED, "demo%s%s" % (k, ext))
 def sh(cmd, **kw):
     return subprocess.run(cmd, shell=True, stdout=subprocess.PIPE, stderr=subprocess.STDOUT, universal_newlines=True, errors="replace", **kw)
+
+SCRATCH = "/tmp/seedtest-repo-%d" % os.getpid()
+def apply_patch(patchfile):
+    """returns (ok, message); afterwards the environment selects the patched tree"""
+    if IN_REPO:
+        sh("git -C /repo checkout -- .")
+        r = sh("git -C /repo apply %s" % patchfile)
+        os.environ.pop("VERIF_REPO", None)
+        return r.returncode == 0, r.stdout
+    shutil.rmtree(SCRATCH, ignore_errors=True); os.makedirs(SCRATCH)
+    sh("git -C /repo archive HEAD src include utest/test_data | tar -x -C %s" % SCRATCH)
+    r = sh("cd %s && patch -p1 -s < %s" % (SCRATCH, patchfile))
+    os.environ["VERIF_REPO"] = SCRATCH
+    return r.returncode == 0, r.stdout
+def undo_patch():
+    if IN_REPO:
+        sh("git -C /repo checkout -- .")
+    else:
+        shutil.rmtree(SCRATCH, ignore_errors=True)
 
 def run_demo(san):
     exe = "/tmp/demo_%s_%s" % (TAG, k)
@@ -56,9 +76,8 @@ if RERUN:
     meta = json.load(open(os.path.join(d, "meta.json")))
     patch = os.path.join(d, "patch.diff")
     det = {}
-    sh("git -C /repo checkout -- .")
-    r = sh("git -C /repo apply %s" % patch)
-    assert r.returncode == 0, r.stdout
+    okp, msg = apply_patch(patch)
+    assert okp, msg
     try:
         for cid in ids:
             t1 = time.time()
@@ -71,7 +90,9 @@ if RERUN:
             det[cid] = dict(rc=rc, sigs=sigs[:8], wall=round(time.time() - t1, 1))
             print("  %s-%s check %s: rc=%d %s (%.0fs)" % (pid, k, cid, rc, "DETECTED " + ", ".join(x for x, _ in sigs[:3]) if rc == 1 else ("inconclusive" if rc == 2 else "MISSED"), time.time() - t1))
     finally:
-        sh("git -C /repo checkout -- .")
+        undo_patch()
+    for cid in det:
+        det[cid]["how"] = "git -C /repo apply" if IN_REPO else "scratch copy of /repo HEAD via VERIF_REPO"
     prev = meta.get("checks_run", {}); prev.update(det); meta["checks_run"] = prev
     json.dump(meta, open(os.path.join(d, "meta.json"), "w"), indent=1)
     sys.exit(0)
@@ -116,10 +137,9 @@ if os.path.exists(readme):
     meta["agent_readme"] = open(readme, errors="replace").read()[:6000]
 # run our checks against it
 det = {}
-sh("git -C /repo checkout -- .")
-r = sh("git -C /repo apply %s" % patch)
-if r.returncode != 0:
-    print("patch does not apply to /repo:", r.stdout)
+okp, msg = apply_patch(patch)
+if not okp:
+    print("patch does not apply to /repo:", msg)
 else:
     try:
         for cid in ids:
@@ -131,7 +151,9 @@ else:
             if rr.returncode == 2:
                 print("   ", [l for l in rr.stdout.splitlines() if "HARNESS" in l][:3])
     finally:
-        sh("git -C /repo checkout -- .")
+        undo_patch()
+for cid in det:
+    det[cid]["how"] = "git -C /repo apply" if IN_REPO else "scratch copy of /repo HEAD via VERIF_REPO"
 meta["checks_run"] = det
 meta["ran"] = "tools/seedtest.py %s %s %s" % (pid, k, " ".join(ids))
 if tests_ok and demo_ok:
